@@ -17,7 +17,8 @@ from . import ikentry
 from .c07 import TWO_PI
 
 def leaf(ck):
-    for (nlo, nhi, plo, phi, strict) in ((-1, 1, -2, 2, True), (-3, 3, -4, 4, False)):
+    # third range: a solver answer (in [-pi, pi]) against the centre of a wrap-around limit range, which can lie almost three half-turns out
+    for (nlo, nhi, plo, phi, strict) in ((-1, 1, -2, 2, True), (-3, 3, -4, 4, False), (-1, 1, -3, 3, True)):
         eng = ck.engine(unwind=4, pi_rational=True)
         now, prev = z3.Real('now'), z3.Real('prev')
         st = eng.new_state(); st.assume(z3.And(now >= nlo * PI, now <= nhi * PI, prev >= plo * PI, prev <= phi * PI))
@@ -28,7 +29,10 @@ def leaf(ck):
         ctx = list(st.pc); label = f'normalize_near[now in {nlo}..{nhi} pi, prev in {plo}..{phi} pi]: '
         case = lambda m: dict(now=model_float(m, now), prev=model_float(m, prev), leaf='true')
         ck.witness(label + 'returns', eng, *ctx)
-        if strict:
+        if strict and phi > 2:
+            ck.decide(label + 'out - now in 2pi*{-2..2}', eng, ctx, z3.Not(z3.Or([out.v == now + TWO_PI * k for k in range(-2, 3)] + [z3.And(z3.Or(now == PI, now == -PI), out.v == -now)])), case, vary=[now, prev])
+            ck.decide(label + '|out - prev| <= pi', eng, ctx, z3.Not(z3.And(out.v - prev <= PI, prev - out.v <= PI)), case, vary=[now, prev])
+        elif strict:
             ck.decide(label + 'out - now in 2pi*{-1,0,1}', eng, ctx, z3.Not(z3.Or(out.v == now, out.v == now - TWO_PI, out.v == now + TWO_PI, z3.And(z3.Or(now == PI, now == -PI), out.v == -now))), case, vary=[now, prev])
             ck.decide(label + '|out - prev| <= pi', eng, ctx, z3.Not(z3.And(out.v - prev <= PI, prev - out.v <= PI)), case, vary=[now, prev])
         else:
